@@ -90,9 +90,12 @@ func (d *deepCopier) deepCopyIface(in, out reflect.Value) {
 	inElem := in.Elem()
 	switch inElem.Kind() {
 	case reflect.Ptr:
-		newVal := reflect.New(inElem.Type().Elem())
-		out.Set(newVal)
-		d.deepCopy(inElem.Elem(), newVal.Elem())
+		// Copy the pointer through deepCopyPtr (into a settable
+		// temporary), so the pointer-map is consulted (shared and
+		// cyclic references) and a typed nil pointer stays nil.
+		newPtr := reflect.New(inElem.Type()).Elem()
+		d.deepCopyPtr(inElem, newPtr)
+		out.Set(newPtr)
 		return
 	case reflect.Struct:
 		newVal := reflect.New(inElem.Type())
